@@ -134,6 +134,42 @@ def handle (j : Json) : Except String Verdict := do
       let mw := fromSamples .fixed o2 samples
       if !sameOutcome mw wcls wf then
         agree := false; asig := s!"tracety/overwrite-samples-model-vs-impl/{diffSig mw wcls wf}"
+  -- (e) API coverage: the same tracing with the options reached another way / through another `SchemaLike` implementor /
+  --     with untouched defaults must repeat the result it stands beside (C08: the mapping depends on the option VALUES only,
+  --     and `Default` holds the documented values)
+  if let some api := (getStr j "api").toOption then
+    tags := tags ++ [s!"api:{api}"]
+    let withOw := (getBool j "api_with_overwrites").toOption.getD false
+    let refTy := if withOw then getOpt j "impl_ow" else getOpt j "impl"
+    let refSm := if withOw then getOpt j "impl_samples_ow" else getOpt j "impl_samples"
+    for (key, ref) in [("impl_api", refTy), ("impl_samples_api", refSm)] do
+      for e in ((getArr j key).toOption.getD #[]) do
+        match e, ref with
+        | .arr #[.str name, out], some r =>
+          panics := panics || implCls out == "panic"
+          if out != r && c08 then
+            -- arrow2 has no place for some traced types only through marrow's conversion (an error there is a gap, not a difference)
+            if name == "Vec<arrow2 Field>" && implCls out == "err" && implCls r == "ok" then tags := tags ++ ["api:arrow2-gap"]
+            else
+              c08 := false
+              csig := s!"C08/api/{api}/{name}/{if key == "impl_api" then "from_type" else "from_samples"}/{implCls out}-vs-{implCls r}"
+        | _, _ => pure ()
+    if api == "defaults" then
+      let d : Trace.Options := {}
+      let want := Json.mkObj [("allow_null_fields", d.allow_null_fields), ("map_as_struct", d.map_as_struct),
+        ("sequence_as_large_list", d.sequence_as_large_list), ("strings_as_large_utf8", d.string_as_large_utf8),
+        ("string_dictionary_encoding", d.string_dictionary_encoding), ("coerce_numbers", d.coerce_numbers),
+        ("allow_to_string", d.allow_to_string), ("guess_dates", d.guess_dates),
+        ("enums_without_data_as_strings", d.enums_without_data_as_strings), ("from_type_budget", d.from_type_budget),
+        ("overwrites_default", d.overwrites.isEmpty)]
+      let df := (getObj j "default_fields").toOption.getD Json.null
+      for k in ["default()", "new()"] do
+        if (df.getObjVal? k).toOption != some want && c08 then
+          c08 := false; csig := s!"C08/api/defaults/{k}/documented-values"
+      if (df.getObjValAs? Bool "eq").toOption != some true && c08 then
+        c08 := false; csig := "C08/api/defaults/new-vs-default"
+      -- the case's own options must be the documented defaults, or the comparison above means nothing
+      if o != d then agree := false; asig := "tracety/api/defaults/case-options"
   let c16 := if panics then "fail" else "pass"
   let sig := if !c08 then csig else if panics then "C16/panic/tracety" else asig
   return { agree, spec := [("C08", if c08 then "pass" else "fail"), ("C07", "na"), ("C06", "na"), ("C16", c16)], sig, tags,
